@@ -181,7 +181,7 @@ Proof.
   unfold RE, RW, dT, dpT, hB, fin0, fin1. unfold fsm_advancement at 1. mrun.
   unfold checksum_verify; mrun; dpr;
   (destruct (ckt =? CK_NULL) eqn:Eck; cbn [orb]; mrun;
-   [| unfold vfs_checksum; mrun; rewrite Eck; mrun; rewrite Hl, Hck; cbv iota; mrun; rewrite bytes_eqb_refl; mrun]);
+   [| unfold vfs_checksum; mrun; rewrite Eck; mrun; rewrite Hl, Hck; cbv iota; mrun; rewrite bytes_eqb_refl; dpr; rewrite Z.leb_refl; cbn [andb]; mrun]);
   unfold handle_transfer_completion, notice_of_completion; mrun; rewrite Hfin; mrun; dpr; mrun;
   unfold prepare_finished_pdu, conf, add_packet; mrun;
   unfold handle_finished_pdu_sent; mrun; unfold start_positive_ack_procedure, rcfg_or_assert, now; mrun;
